@@ -206,6 +206,7 @@ def drive(case, evaluator, emit, snapshot, hooks):
     T = case["timeout"]
     mode = case.get("mode", "search")
     timers = []
+    early = {}
 
     def second_sentinel():
         # two round trips through the evaluator's event loop first (when it is running): every wait_for timeout that was due
@@ -231,13 +232,23 @@ def drive(case, evaluator, emit, snapshot, hooks):
         # the early sentinel is a timer of the evaluator's own event loop, due 0.5 s before the deadline and set at the first submit
         # of the call: the loop fires its timers in the order of their deadlines, so it precedes the wait_for timeouts of a fresh
         # budget whatever the load (the budget starts after this point, so the margin is at least 0.5 s)
-        at = time.time() + t_budget - 0.5
+        early["at"], early["fired"] = time.time() + t_budget - 0.5, False
 
         def after_submit():
             hooks["after_submit"] = None
-            evaluator.loop.call_later(max(0.0, at - time.time()), emit, 0, K_S0, 0)
+            evaluator.loop.call_later(max(0.0, early["at"] - time.time()), fire_early)
 
         hooks["after_submit"] = after_submit
+
+    def fire_early():
+        if not early["fired"]:
+            early["fired"] = True
+            emit(0, K_S0, 0)
+
+    def returned_early():
+        """the call returned (its loop is closed) before the early sentinel was due: this instant is still before it"""
+        if early and not early["fired"] and time.time() < early["at"]:
+            fire_early()
 
     def rows_of_df(df):
         out = []
@@ -302,6 +313,7 @@ def drive(case, evaluator, emit, snapshot, hooks):
                 else:  # strict budget that may be hit in the middle of a batch
                     df = search.search(max_evals=case["max_evals"], timeout=T, max_evals_strict=True)
             table = rows_of_df(df)
+        returned_early()
         emit(0, K_RETURN, 0)
         n_at_return = len(snapshot())
         time.sleep(settle)
@@ -390,7 +402,7 @@ def check(case):
     mode = case.get("mode", "search")
     njobs, tr, table, late = run_case_process(case) if case["backend"] in ("process", "loky") else run_case(case)
     statuses = sorted(set(r[1] for r in table))
-    sig = {"backend": case["backend"], "mode": mode, "search": case.get("search", "random")}
+    sig = {"backend": case["backend"], "mode": mode}
     kinds = sorted(set(p[0] for p in case["plan"]))
     res = dict(ok=True, kind="oracle", clause="", nontrivial=(2 in statuses and 4 in statuses), sig=sig,
                desc=["mode=" + mode, "backend=" + case["backend"], "search=" + case.get("search", "random"), "workers=%d" % case["workers"], "timeout=%d" % case["timeout"],
